@@ -168,6 +168,13 @@ impl Signature {
     pub fn try_from(b: &[u8]) -> (r: Result<Signature, SigParseError>)
         ensures r is Ok <==> b@.len() == 64, r matches Ok(s) ==> s.b@ == b@
     { unimplemented!() }
+    // ed25519_dalek::Signature::from_slice / from_bytes
+    #[verifier::external_body]
+    pub fn from_slice(b: &[u8]) -> (r: Result<Signature, SigParseError>)
+        ensures r is Ok <==> b@.len() == 64, r matches Ok(s) ==> s.b@ == b@
+    { unimplemented!() }
+    #[verifier::external_body]
+    pub fn from_bytes(b: &[u8; 64]) -> (r: Signature) ensures r.b@ == b@ { unimplemented!() }
 }
 impl Ed25519Dalek {
 //@fn iroh/src/tls/verifier.rs SignatureVerificationAlgorithm@Ed25519Dalek::verify_signature props=C01 ret=r
@@ -187,6 +194,23 @@ pub struct DerError;
 pub struct VerifyingKey { pub b: Seq<u8> }
 // ed25519_dalek::VerifyingKey::from_public_key_der: parses a SubjectPublicKeyInfo; Ok only for spki(key) of a valid point
 impl VerifyingKey {
+    // ed25519_dalek API reachable from the verifier module (so that code calling dalek directly stays within reach):
+    // point validation on construction; verify_strict <=> ed_valid; the NON-strict `Verifier::verify` accepts small-order
+    // keys / non-canonical encodings and therefore promises nothing about ed_valid
+    #[verifier::external_body]
+    pub fn try_from(b: &[u8]) -> (r: Result<VerifyingKey, DerError>)
+        ensures r is Ok <==> (b@.len() == 32 && valid_point(b@)), r matches Ok(k) ==> k.b == b@
+    { unimplemented!() }
+    #[verifier::external_body]
+    pub fn from_bytes(b: &[u8; 32]) -> (r: Result<VerifyingKey, DerError>)
+        ensures r is Ok <==> valid_point(b@), r matches Ok(k) ==> k.b == b@
+    { unimplemented!() }
+    #[verifier::external_body]
+    pub fn verify_strict(&self, message: &[u8], sig: &Signature) -> (r: Result<(), SignatureError>)
+        ensures r is Ok <==> ed_valid(self.b, message@, sig.b@)
+    { unimplemented!() }
+    #[verifier::external_body]
+    pub fn verify(&self, message: &[u8], sig: &Signature) -> (r: Result<(), SignatureError>) { unimplemented!() }
     #[verifier::external_body]
     pub fn from_public_key_der(c: &Certificate) -> (r: Result<VerifyingKey, DerError>)
         ensures r matches Ok(k) ==> k.b.len() == 32 && valid_point(k.b) && c.der == spki(k.b)
